@@ -81,6 +81,34 @@ def capture_programs(tier):
     return progs
 
 
+def closure_value_programs():
+    """branches whose VALUE is a parameterless closure literal (`|| e`, `move || e`, behind `let`, with a later step): under
+    lazy_branches(true) — and in the thread-spawning macros, which are lazy by default — the joiner / thread gets the macro's own
+    wrapper and the branch still evaluates to the user's closure, which nobody has called yet"""
+    progs = []
+    b1d = 'st(4, 7) -> |v: i32| { ev("1.0.f", &v); v + 1 }'
+    b1r = '(|v: i32| { ev("1.0.f", &v); v + 1 })(st(4, 7))'
+    forms = [("plain", '|| { ev0("0.0.u"); 5 }', ""), ("move", 'move || { ev0("0.0.u"); 5 }', ""), ("let", '|| { ev0("0.0.u"); 5 }', "let th = ")]
+    tail = '\nlet v0 = (x.0)();\nformat!("{:?}", (v0, x.1))'
+    for fname, clo, let in forms:
+        for mac, opts, lazy_rev in (("join", "lazy_branches(true) custom_joiner(jl!) ", True), ("join", "custom_joiner(jl!) lazy_branches(true) ", True), ("join_spawn", "", False), ("spawn", "", False), ("join", "custom_joiner(jm!) ", False)):
+            d = "%s! { %s%s%s, %s }" % (mac, opts, let, clo, b1d)
+            if lazy_rev:
+                r = '{ ev("j.x.a", &2usize); let b = %s; let a = %s; (a, b) }' % (b1r, clo)
+            elif "custom_joiner" in opts:
+                # (the macro joiner logs its event before its arguments are evaluated)
+                r = '{ ev("j.x.a", &2usize); let a = %s; let b = %s; (a, b) }' % (clo, b1r)
+            else:
+                r = '{ let a = %s; let b = %s; (a, b) }' % (clo, b1r)
+            progs.append(Prog("closureval/%s/%s/%s" % (mac, fname, opts.replace(" ", "+") or "default"), "let x = %s;%s" % (r, tail), "let x = %s;%s" % (d, tail), [[0]], "Full" if mac == "join" else "Proj", meta={"macro": mac, "dsl": d, "ref": r}))
+        # a later step consumes the closure
+        d = 'join! { lazy_branches(true) custom_joiner(jl!) %s%s ~-> |f: fn() -> i32| { ev0("0.1.f"); f() + 1 }, %s }' % (let, clo, b1d)
+        r = '{ ev("j.x.a", &2usize); let b = %s; let a = %s; let a = (|f: fn() -> i32| { ev0("0.1.f"); f() + 1 })(a); (a, b) }' % (b1r, clo.replace("|| {", "|| -> i32 {", 1))
+        fmt = '\nformat!("{:?}", x)'
+        progs.append(Prog("closureval/join/%s/step" % fname, "let x = %s;%s" % (r, fmt), "let x = %s;%s" % (d.replace("|| {", "|| -> i32 {", 1), fmt), [[0]], "Full", meta={"macro": "join", "dsl": d, "ref": r}))
+    return progs
+
+
 def handler_programs(tier):
     """C13 under options: every handler kind behind each option that changes how a step is joined or transposed; in the async
     try macros transpose_results(true) (the only way to carry Option/Result-valued futures) switches to the sequential
@@ -142,6 +170,7 @@ def programs(tier):
             if "async" in mac and tier == "quick" and sum(ds) > 6:
                 continue
             progs.append(make(mac, opts, jn, cmp, ds, rich=(n <= 2 and cmp == "Full")))
+    progs += closure_value_programs()
     return progs
 
 
